@@ -1396,10 +1396,7 @@ def __sx_getitem__(o, k):
             idx = concretize_small(k, -n, n - 1)
             return o[idx]
         if isinstance(o, dict):
-            for kk, vv in o.items():
-                if bool(k == kk):
-                    return vv
-            raise KeyError("symbolic key")
+            return _dict_lookup_merged(o, k)
         return o[k.__index__()]
     if isinstance(k, slice):
         if isinstance(o, (str, bytes, list, tuple)) and any(isinstance(v, SxInt) for v in (k.start, k.stop, k.step)):
@@ -1408,11 +1405,30 @@ def __sx_getitem__(o, k):
                         for v in (k.start, k.stop, k.step)])
         return o[k]
     if isinstance(o, dict) and is_sym(k):
-        for kk, vv in o.items():
-            if bool(k == kk):
-                return vv
-        raise KeyError("symbolic key")
+        return _dict_lookup_merged(o, k)
     return o[k]
+
+
+def _dict_lookup_merged(o, k):
+    """d[k] for a symbolic scalar key in a concrete dictionary.  When every value is an integer the lookup is ONE merged
+    term (an if-then-else chain over the entries) after a single fork on "key present"; otherwise one fork per entry."""
+    items = list(o.items())
+    if items and isinstance(k, (SxChar, SxInt)) and all(isinstance(v, int) and not isinstance(v, bool) for _, v in items) \
+            and len(items) <= 512:
+        if isinstance(k, SxChar) and all(isinstance(kk, str) and len(kk) == 1 for kk, _ in items):
+            present = _char_in(k, "".join(kk for kk, _ in items))
+        else:
+            present = mkbool(z3.Or(*[z3bool(k == kk) for kk, _ in items]))
+        if not bool(present):
+            raise KeyError(k)
+        r = items[-1][1]
+        for kk, vv in reversed(items[:-1]):
+            r = sym_ite(k == kk, vv, r)
+        return r
+    for kk, vv in items:
+        if bool(k == kk):
+            return vv
+    raise KeyError(k)
 
 
 def __sx_contains__(item, cont, neg):
